@@ -221,6 +221,11 @@ class AsyncSocks5Connection(AsyncConnectionInterface):
 
         async with self._connect_lock:
             if self._connection is None:
+                if self._connect_failed:
+                    # Another request was already attempting to establish
+                    # this connection, and failed. The connection pool has
+                    # discarded it, so this request needs a different one.
+                    raise ConnectionNotAvailable()
                 stream: AsyncNetworkStream | None = None
                 try:
                     # Connect to the proxy
